@@ -360,6 +360,12 @@ def Dx9PixelFormat.fromRaw (perm : Bool) (pf : RawPixelFormat) : Except HeaderEr
       | some bc => .ok (.mask { flags, rgbBitCount := bc, rMask := pf.rMask, gMask := pf.gMask,
                                  bMask := pf.bMask, aMask := pf.aMask })
 
+/-- alpha mode of `Header::from_raw`: invalid values fall back to `Unknown` only when permissive -/
+def parseAlphaMode (perm : Bool) (raw : Nat) : Option AlphaMode :=
+  match AlphaMode.ofU32 raw with
+  | some a => some a
+  | none => if perm then some AlphaMode.unknown else none
+
 /-- the DX10 part of `Header::from_raw` -/
 def Dx10Header.fromRaw (perm : Bool) (height width : Nat) (depth : Option Nat) (mipmapCount : Nat)
     (d : RawDx10) : Except HeaderErr Dx10Header :=
@@ -368,9 +374,7 @@ def Dx10Header.fromRaw (perm : Bool) (height width : Nat) (depth : Option Nat) (
   | none => .error (.invalidResourceDimension d.resourceDimension)
   | some dim =>
     let rawAlpha := d.miscFlags2 % 8
-    match (match AlphaMode.ofU32 rawAlpha with
-           | some a => some a
-           | none => if perm then some AlphaMode.unknown else none) with
+    match parseAlphaMode perm rawAlpha with
     | none => .error (.invalidAlphaMode rawAlpha)
     | some alpha =>
       if dim = .tex3D ∧ d.arraySize ≠ 1 ∧ perm = false then
